@@ -17,6 +17,8 @@ the number of such units in one Ångström (to 1e-4 of the CODATA value) and is 
 model converts with `toAngstrom u x = x / factor u`; the theorems below are parametric in the table and
 only use `unitsOk`.
 -/
+import Mathlib.Tactic.Ring
+import Mathlib.Tactic.FieldSimp
 import Molli.Model.Xyz
 import Molli.Gen.Units
 import Molli.Gen.Mol2Types
@@ -65,6 +67,51 @@ theorem angstrom_identity (u : UnitEntry) (hu : u ∈ Molli.Gen.Units.units) (hn
 theorem symbol_roundtrip (e : Nat) (he : e < Molli.Gen.Mol2Types.table.nE) :
     Molli.Gen.Mol2Types.table.elementGet (Molli.Gen.Mol2Types.table.sym e) = some e :=
   Molli.Lemmas.Mol2Types.symbolRoundtrip_spec _ Molli.Gen.Mol2Types.symbol_roundtrip e he
+
+/-! ### physical distances (the "i.e." of the statement) -/
+
+/-- squared Euclidean distance of two points -/
+def sq3 (p q : Rat × Rat × Rat) : Rat :=
+  (p.1 - q.1) * (p.1 - q.1) + (p.2.1 - q.2.1) * (p.2.1 - q.2.1) + (p.2.2 - q.2.2) * (p.2.2 - q.2.2)
+/-- what the reader does to a coordinate row declared in unit `u` -/
+def conv3 (u : UnitEntry) (p : Rat × Rat × Rat) : Rat × Rat × Rat :=
+  (toAngstrom u p.1, toAngstrom u p.2.1, toAngstrom u p.2.2)
+/-- a physical point (in Å) expressed in unit `u`, as a file declared in `u` carries it -/
+def expr3 (u : UnitEntry) (p : Rat × Rat × Rat) : Rat × Rat × Rat :=
+  (fromAngstrom u p.1, fromAngstrom u p.2.1, fromAngstrom u p.2.2)
+
+/-- the conversion loses nothing: distinct file values stay distinct coordinates -/
+theorem toAngstrom_injective (u : UnitEntry) (hu : u ∈ Molli.Gen.Units.units) (x y : Rat)
+    (h : toAngstrom u x = toAngstrom u y) : x = y := by
+  have hf := factor_ne_zero_of_unitsOk Molli.Gen.Units.units_ok u hu
+  simp only [toAngstrom] at h
+  field_simp at h
+  exact h
+
+/-- the distance of two points read from a file declared in `u` is the distance of the file values
+divided by the number of `u` per Ångström (squared form, no square roots): one common factor, every
+pair of atoms. -/
+theorem distance_scaling (u : UnitEntry) (hu : u ∈ Molli.Gen.Units.units) (p q : Rat × Rat × Rat) :
+    sq3 (conv3 u p) (conv3 u q) * (u.factor * u.factor) = sq3 p q := by
+  have hf := factor_ne_zero_of_unitsOk Molli.Gen.Units.units_ok u hu
+  simp only [sq3, conv3, toAngstrom]
+  field_simp
+
+/-- "the physical distances are unchanged": two physical points expressed in any unit of the table and
+read back are at exactly their physical distance. -/
+theorem physical_distance_unchanged (u : UnitEntry) (hu : u ∈ Molli.Gen.Units.units) (p q : Rat × Rat × Rat) :
+    sq3 (conv3 u (expr3 u p)) (conv3 u (expr3 u q)) = sq3 p q := by
+  simp only [conv3, expr3, unit_invariance u hu]
+
+/-- the same physical point read from a file in unit `u` and from a file in unit `v` is the same
+coordinate row: the result does not depend on the unit the file chose. -/
+theorem unit_independent (u v : UnitEntry) (hu : u ∈ Molli.Gen.Units.units) (hv : v ∈ Molli.Gen.Units.units)
+    (p : Rat × Rat × Rat) : conv3 u (expr3 u p) = conv3 v (expr3 v p) := by
+  simp only [conv3, expr3, unit_invariance u hu, unit_invariance v hv]
+
+/-- non-vacuity: H–H at 1.4 Bohr along x; the squared distance read is (1.4 / 1.88973)² Å², not 1.96. -/
+example : sq3 (conv3 ⟨"Bohr", 188973, 100000⟩ (0, 0, 0)) (conv3 ⟨"Bohr", 188973, 100000⟩ (14 / 10, 0, 0))
+    = (140000 / 188973) * (140000 / 188973) := by decide +kernel
 
 /-! ### round trip -/
 
